@@ -24,7 +24,12 @@ RULE = ("cases = (platform, language, operator, operand type tuple): EVERY built
         "(exhaustive, not sampled); non-trivial = the operator is not a cast or assignment (whose result is an operand type "
         "by definition) i.e. a conversion rule is exercised")
 EXPLANATION = "filled in below"
-THEOREMS = []
+THEOREMS = ["Cppcheck.C09." + t for t in (
+    "platforms_sane platforms_consistent platforms_char_lt_int conv_eq_spec_partial conv_eq_spec_partial_table "
+    "conv_counterexample conv_counterexample_lp64 sameSize_class_deviates arith_fixed_eq_spec promotion_below_int "
+    "promotion_counterexample promotion_fixed shift_takes_left_type shift_fixed comparison_yields_int_or_bool "
+    "lnot_yields_int_or_bool comparison_c_counterexample assignment_keeps_left_type cast_takes_target_type incdec_partial "
+    "incdec_fixed ternary_partial_different ternary_partial_same ternary_counterexample ternary_fixA_different ternary_fixed").split()]
 MODULES = ["Cppcheck.Props.C09"]
 
 TYPES = ["bool", "char", "schar", "uchar", "short", "ushort", "int", "uint", "long", "ulong", "llong", "ullong", "float", "double", "ldouble"]
@@ -331,13 +336,46 @@ def canon_impl(op, out):
 
 
 VARIANTS = ["base", "fixA", "fixAB"]
+ARITH = {"add", "sub", "mul", "div", "mod"}
+BIT = {"band", "bor", "bxor"}
+SHIFT = {"shl", "shr"}
+BOOLVAL = {"lt", "le", "gt", "ge", "eq", "ne", "land", "lor"}
+INCDEC = {"preInc", "preDec", "postInc", "postDec"}
+
+# the classes of deviation of the code AS PINNED (hypotheses of the `_partial` theorems); key -> what
+CLASSES = {
+    "uac-rank-not-size": "F9a (F7, class K1): usual arithmetic conversions pick the operand of higher RANK with its sign although it is not wider: "
+                         "`unsigned int + long` is typed `signed long` where sizeof(long)==sizeof(int) (win32A/W, win64, unix32, arm32, mips32, riscv32 ...), "
+                         "`unsigned long + long long` is typed `signed long long` where sizeof(long long)==sizeof(long) (unix64, native, aix_ppc64, riscv64 ...); "
+                         "C17 6.3.1.8 gives the unsigned type (clang --target=x86_64-pc-windows-msvc / x86_64-linux-gnu agree)",
+    "promotion-unsigned-fills-int": "F9b (class K2): every type below int is promoted to `signed int`: `unsigned short` operands of + - * / % & | ^ << >> unary - ~ "
+                                    "where sizeof(short)==sizeof(int) (avr8, msp430_eabi_large_datamodel, pic8, pic8-enhanced, pic16) are typed `signed int`; "
+                                    "C17 6.3.1.1p2 gives `unsigned int`",
+    "literal-hex-window": "F9f (class K6): a hexadecimal / binary integer literal with UINT_MAX < value <= 2*UINT_MAX+1 is typed `unsigned int` "
+                          "(`0x100000000`, `0x1FFFFFFFFu` on every platform with 32-bit int; the non-decimal branch tests isIntValue(value >> 2)), likewise "
+                          "`unsigned long` for ULONG_MAX < value <= 2*ULONG_MAX+1 (`0x100000000l` on win64); C17 6.4.4.1p5 gives the next type that can "
+                          "represent the value (`long` / `long long`); `sizeof(0x100000000) == 4` is folded to true on unix64",
+    "literal-octal-as-decimal": "F9g (class K7): an octal literal is treated as a decimal one (MathLib::isDec accepts every digit string), so the unsigned types "
+                                "of 6.4.4.1p5's octal/hex column are never chosen: `037777777777` (= UINT_MAX) is typed `signed long` on unix64 "
+                                "(`signed long long` on win64); the language gives `unsigned int`",
+    "c-boolean-typed-bool": "F9c (class K3): in C, `a < b`, `a == b`, `a && b`, `!a` (and `_Bool ? _Bool : _Bool`) are typed `bool`; C17 6.5.8p6/6.5.9p3/6.5.13p3/6.5.3.3p5 "
+                            "give `int` (visible consequence: `sizeof(a<b) == 1` is reported as always true in a .c file)",
+    "incdec-promoted": "F9d (class K4): `++a`, `a++`, `--a`, `a--` on char/short operands are typed `signed int` (the promotion branch is shared with the arithmetic operators); "
+                       "C17 6.5.3.1p2/6.5.2.4p2 and C++17 [expr.pre.incr]/[expr.post.incr] give the operand's type (`sizeof(++us)` is folded to 4)",
+    "ternary-same-enum-type": "F9e (class K5): `c ? a : b` with operands of one ValueType::Type takes the type of `a` (ValueType::isTypeEqual ignores the sign): "
+                              "`c ? i : u` (int, unsigned int) is typed `signed int`, `c ? sc : uc` `signed char`; in C `c ? s : s` (short) stays `short`; "
+                              "C17 6.5.15p5 / C++17 [expr.cond] give the usual arithmetic conversions (`unsigned int`, `int`, `int`)",
+}
 
 
 def split_model(out):
-    """driver line → ({variant: conv line}, spec dict)"""
+    """driver line → ({variant: conv line}, spec dict, flags dict)"""
     conv = dict((v, []) for v in VARIANTS)
-    spec = {}
+    spec, flags = {}, {}
     for p in out.split():
+        if p.startswith("K:"):
+            flags = dict(kv.split("=") for kv in p[2:].split(","))
+            continue
         n, v = p.split("=", 1)
         if "|" in v:
             c, s = v.split("|")
@@ -348,7 +386,7 @@ def split_model(out):
         else:
             for vr in VARIANTS:
                 conv[vr].append(p)
-    return dict((vr, " ".join(conv[vr])) for vr in VARIANTS), spec
+    return dict((vr, " ".join(conv[vr])) for vr in VARIANTS), spec, flags
 
 
 def table_ops(plat_names, langs=("c", "cpp")):
@@ -363,7 +401,7 @@ def table_ops(plat_names, langs=("c", "cpp")):
 
 
 def run_ops(ctx, drv, exe, ops):
-    """returns impl lines (canonical), {variant: model lines}, spec dicts"""
+    """returns impl lines (canonical), {variant: model lines}, spec dicts, flag dicts"""
     hl = []
     for op in ops:
         f = op.split()
@@ -375,10 +413,12 @@ def run_ops(ctx, drv, exe, ops):
     rc, mout, merr = core.run_lines(drv, [], ops, timeout=900)
     if len(mout) != len(ops):
         raise core.CheckBroken("C09 driver produced %d lines for %d ops: %s" % (len(mout), len(ops), merr[-500:]))
+    if any(o in ("bad-op", "unknown-platform") for o in mout):
+        raise core.CheckBroken("C09 driver rejected an op: %s" % ops[[o in ("bad-op", "unknown-platform") for o in mout].index(True)])
     impl = [canon_impl(op, o) for op, o in zip(ops, hout)]
     split = [split_model(o) for o in mout]
     models = dict((vr, [s[0][vr] for s in split]) for vr in VARIANTS)
-    return impl, models, [s[1] for s in split]
+    return impl, models, [s[1] for s in split], [s[2] for s in split]
 
 
 def pick_variant(impl, models):
@@ -394,6 +434,214 @@ def pick_variant(impl, models):
     return best
 
 
+def classify(op, name, flags):
+    """class (known-finding key) of a deviation from the language rule at operator `name` of program `op`; None = none
+    of the classes the `_partial` theorems exclude.  The predicates k1/k2*/svt/below are computed by the Lean driver with
+    the very definitions the theorems use."""
+    f = op.split()
+    lang = f[2]
+    if f[0] == "bin":
+        t1, t2 = f[3], f[4]
+        if name in BOOLVAL:
+            return "c-boolean-typed-bool" if lang == "c" else None
+        if name == "tern" and flags.get("svt") == "1":
+            if lang == "c" and t1 == "bool" and t2 == "bool":
+                return "c-boolean-typed-bool"
+            return "ternary-same-enum-type"
+        if name in ARITH or name in BIT or name == "tern":
+            if flags.get("k2a") == "1" or flags.get("k2b") == "1":
+                return "promotion-unsigned-fills-int"
+            if flags.get("k1") == "1":
+                return "uac-rank-not-size"
+            return None
+        if name in SHIFT:
+            return "promotion-unsigned-fills-int" if flags.get("k2a") == "1" else None
+        return None
+    if name == "lnot":
+        return "c-boolean-typed-bool" if lang == "c" else None
+    if name in INCDEC:
+        return "incdec-promoted" if flags.get("below") == "1" else None
+    if name in ("neg", "bnot"):
+        return "promotion-unsigned-fills-int" if flags.get("k2") == "1" else None
+    return None
+
+
+def expr_text(op, name):
+    f = op.split()
+    if f[0] == "bin":
+        e = "c ? a : b" if name == "tern" else ("a" if name == "var1" else "b" if name == "var2" else "a %s b" % BINOPS[name])
+        return "%s a; %s b; (%s)" % (spell(f[3], f[2]), spell(f[4], f[2]), e)
+    if f[0] == "lit":
+        return lit_spelling(f[3], int(f[4]), int(f[5]), int(f[6]), int(f[7]))
+    if name.startswith("cast_"):
+        e = "(%s)a" % spell(name[5:], f[2])
+    else:
+        e = UNOPS.get(name, "a")
+    return "%s a; (%s)" % (spell(f[3], f[2]), e)
+
+
+def evaluate(ctx, res, drv, exe, ops, tie, count=True):
+    """correspondence (against the matching modelled state of the code) + P_impl on every operator of every program"""
+    impl, models, specs, flags = run_ops(ctx, drv, exe, ops)
+    # THE model is `base` (the code as pinned).  The models of the patched code (proposed diffs) are only consulted to
+    # say, in the failure message, whether the working tree is one of those states; any state other than `base` is a
+    # correspondence break.
+    variant, _ = pick_variant(impl, models)
+    model = models["base"]
+    mism = [i for i in range(len(ops)) if impl[i] != model[i]]
+    res.traces_validated += len(ops) - len(mism)
+    res.oblig("correspondence:" + tie, not mism, "correspondence",
+              "" if not mism else "%d of %d programs differ from the model of the pinned code (closest modelled state: %s%s); first: op=%s impl=[%s] model=[%s]" %
+              (len(mism), len(ops), variant,
+               "" if variant == "base" else " = the code with /verif/proposed/C09-*.diff applied; the model of record must then be switched deliberately",
+               ops[mism[0]], impl[mism[0]], model[mism[0]]))
+    devs = []
+    for i, op in enumerate(ops):
+        f = op.split()
+        bad = impl[i].startswith("impl-error")
+        got = {} if bad else dict(p.split("=", 1) for p in impl[i].split())
+        if bad:
+            devs.append(dict(op=op, name="*", impl=impl[i], spec="(program rejected by the implementation)", key=None))
+        mod = dict(p.split("=", 1) for p in model[i].split())
+        for n, s in specs[i].items():
+            if count:
+                nt = not (n.startswith("cast_") or n.endswith("A") or n == "assign")
+                res.case("%s|%s|%s" % (tie, op, n), nt,
+                         dict(tie=tie, op="%s [%s]" % (op, n), impl=got.get(n), model=mod.get(n), spec=s) if (i % 2500 == 7 and n in ("add", "neg")) else None)
+                res.count("op:" + n.split("_")[0])
+            if got.get(n) != s:
+                key = classify(op, n, flags[i])
+                if key is not None and got.get(n) != mod.get(n):
+                    key = None          # a deviation, but not the one the model of the code predicts
+                devs.append(dict(op=op, name=n, impl=got.get(n), spec=s, key=key))
+                if count:
+                    res.count("deviation:" + (key or "UNCLASSIFIED"))
+    return variant, devs, mism
+
+
+def report(res, devs, origin):
+    """one violation per class (the first witness), every unclassified deviation (at most 5)"""
+    seen = set(v.get("key") for v in res.violations if v.get("key"))
+    unclassified = sum(1 for v in res.violations if not v.get("key"))
+    for d in devs:
+        if d["key"] in seen:
+            continue
+        if d["key"] is None:
+            if unclassified >= 5:
+                continue
+            unclassified += 1
+        else:
+            seen.add(d["key"])
+        f = d["op"].split()
+        res.violation("%s: --platform=%s, %s: `%s` is typed %s by cppcheck, the language gives %s%s" %
+                      (origin, f[1], "C" if f[2] == "c" else "C++", expr_text(d["op"], d["name"]) if d["name"] != "*" else d["op"], d["impl"], d["spec"],
+                       "" if d["key"] else " (outside every known class)"),
+                      dict(op=d["op"], name=d["name"], impl=d["impl"], spec=d["spec"], klass=d["key"],
+                           program=("void f(void) { (void)(%s); }" % d["text"]) if d["op"].startswith("lit") else op_program(d["op"])[0],
+                           replay_cmd="./check.py C09 --replay <this file>"),
+                      concrete=True, key=d["key"])
+
+
+# ------------------------------------------------------------------------------------------------------------
+# integer literals
+# ------------------------------------------------------------------------------------------------------------
+def lit_spelling(base, us, longs, value, k):
+    """one of the spellings of the literal; k selects hex vs binary, letter case and suffix order"""
+    if base == "dec":
+        body = str(value)
+    elif base == "oct":
+        body = "0" + oct(value)[2:] if value else "00"
+    elif k % 5 == 4:
+        body = "0b" + bin(value)[2:]
+    else:
+        body = ("0x%X" if k % 2 else "0x%x") % value
+    l = ["", "l", "ll"][longs]
+    if (k // 2) % 2:
+        l = l.upper()
+    u = ("U" if (k // 4) % 2 else "u") if us else ""
+    return body + (u + l if (k // 8) % 2 == 0 else l + u)
+
+
+def literal_cases(rng, thorough):
+    vals = set([0, 1, 9, 127, 255, 32767, 65535])
+    for b in (7, 8, 15, 16, 17, 31, 32, 33, 34, 47, 62, 63, 64):
+        for d in (-2, -1, 0, 1):
+            v = (1 << b) + d
+            if 0 <= v < (1 << 64):
+                vals.add(v)
+    for _ in range(400 if thorough else 60):
+        vals.add(rng.getrandbits(rng.choice([8, 16, 17, 30, 31, 32, 33, 34, 40, 62, 63, 64])))
+    cases = []
+    for v in sorted(vals):
+        for base in ("dec", "oct", "hex"):
+            for us in (0, 1):
+                for longs in (0, 1, 2):
+                    cases.append((base, us, longs, v, rng.randrange(16)))
+    return cases
+
+
+def run_literals(ctx, res, drv, exe, names, thorough):
+    cases = literal_cases(ctx.rng, thorough)
+    groups = [(plat, lang, cases[i:i + 150]) for plat in names for lang in ("c", "cpp") for i in range(0, len(cases), 150)]
+    return literal_devs(ctx, res, drv, exe, groups, "literal-types", True)
+
+
+def literal_devs(ctx, res, drv, exe, groups, tie, count):
+    """groups: (platform, language, [(base, us, longs, value, spelling variant)]) - one program per group"""
+    dops, hl = [], []
+    for plat, lang, part in groups:
+        prog = "void f(void) {\n" + "".join("(void)(%s);\n" % lit_spelling(*c) for c in part) + "}\n"
+        hl.append("%s %s %s" % (plat, lang, core.hx(prog)))
+        for c in part:
+            dops.append("lit %s %s %d %d %d" % (plat, c[0], c[1], c[2], c[3]))
+    rc, hout, herr = core.run_lines([exe, core.REPO], [], hl, timeout=900)
+    rc, mout, merr = core.run_lines(drv, [], dops, timeout=900)
+    if len(hout) != len(hl) or len(mout) != len(dops):
+        raise core.CheckBroken("C09 literal streams: harness %d/%d driver %d/%d: %s" % (len(hout), len(hl), len(mout), len(dops), (herr + merr)[-300:]))
+    mism, devs, j = [], [], 0
+    for (plat, lang, part), o in zip(groups, hout):
+        f = o.split()
+        ok = f and f[0] == "ok" and len(f) - 1 == len(part)
+        for k, c in enumerate(part):
+            m = re.match(r"^lit=(\S+)\|(\S+) K:k6=(\d),k7=(\d)$", mout[j])
+            if not m:
+                raise core.CheckBroken("C09 driver literal line: " + mout[j])
+            conv, spec, k6, k7 = m.groups()
+            got = f[1 + k] if ok else "impl-error:" + o[:60]
+            sp = lit_spelling(*c)
+            desc = "%s %s %s" % (plat, lang, sp)
+            if count:
+                res.case("literal|" + desc, bool(c[3] >= (1 << 15) or c[1] or c[2]),
+                         dict(tie=tie, op=desc, impl=got, model=conv, spec=spec) if j % 9000 == 11 else None)
+                res.count("literal:" + c[0])
+            if got != conv:
+                mism.append((desc, got, conv))
+            if plat != "unspecified" and spec != "none" and got != spec:
+                key = "literal-hex-window" if k6 == "1" else ("literal-octal-as-decimal" if k7 == "1" else None)
+                if key is not None and got != conv:
+                    key = None
+                devs.append(dict(op="lit %s %s %s %d %d %d %d" % (plat, lang, c[0], c[1], c[2], c[3], c[4]), name="lit", impl=got, spec=spec, key=key, text=sp))
+                if count:
+                    res.count("deviation:" + (key or "UNCLASSIFIED"))
+            j += 1
+    res.traces_validated += j - len(mism)
+    res.oblig("correspondence:" + tie, not mism, "correspondence",
+              "" if not mism else "%d of %d literals differ; first: %s impl=%s model=%s" % (len(mism), j, mism[0][0], mism[0][1], mism[0][2]))
+    if count:
+        res.extra["literals"] = j
+    return devs
+
+
+def lit_group(op):
+    f = op.split()
+    return (f[1], f[2], [(f[3], int(f[4]), int(f[5]), int(f[6]), int(f[7]))])
+
+
+def load_corpus():
+    p = os.path.join(core.VERIF, "corpus", "C09", "witnesses.json")
+    return json.load(open(p)) if os.path.exists(p) else []
+
+
 def run(ctx, res):
     thorough = ctx.tier == "thorough"
     try:
@@ -402,35 +650,187 @@ def run(ctx, res):
     except Unrecognised as ex:
         res.oblig("T1:platform-table", False, "translation", "unrecognised shape: %s" % ex)
         plats = None
-    if THEOREMS:
-        core.prove(ctx, res, MODULES, THEOREMS)
+    core.prove(ctx, res, MODULES, THEOREMS)
     if plats is None:
         return
     drv = ctx.driver("drv_c09")
     exe = ctx.harness("c09")
-    ops = table_ops([n for n, _ in plats])
-    impl, models, specs = run_ops(ctx, drv, exe, ops)
-    variant, mism = pick_variant(impl, models)
+    names = [n for n, _ in plats]
+
+    # ---- corpus: the witnesses of the known classes and past disagreements run first -------------------------
+    corpus = [c for c in load_corpus() if c["op"].split()[1] in names]
+    cops = sorted(set(c["op"] for c in corpus if not c["op"].startswith("lit")))
+    if cops:
+        variant0, devs0, _ = evaluate(ctx, res, drv, exe, cops, "corpus", count=False)
+        want = set((c["op"], c["name"]) for c in corpus)
+        report(res, [d for d in devs0 if (d["op"], d["name"]) in want], "corpus witness")
+    clits = sorted(set(c["op"] for c in corpus if c["op"].startswith("lit")))
+    if clits:
+        report(res, literal_devs(ctx, res, drv, exe, [lit_group(o) for o in clits], "corpus-literals", False), "corpus witness")
+
+    # ---- T2: the sizes the real Platform object holds == the generated record ------------------------------------
+    t2_bad = check_platform_sizes(ctx, drv, exe, plats)
+    res.oblig("T2:platform-sizes-in-process", not t2_bad, "translation", "; ".join(t2_bad[:3]))
+
+    # ---- C1 + P_impl: exhaustive over the table ------------------------------------------------------------------
+    ops = table_ops(names)
+    variant, devs, mism = evaluate(ctx, res, drv, exe, ops, "operator-types")
     res.extra["code_variant"] = variant
-    model = models[variant]
-    res.traces_validated += len(ops) - len(mism)
-    res.oblig("correspondence:operator-types", not mism, "correspondence",
-              "" if not mism else "closest modelled state of the code: %s; %d of %d programs differ; first: op=%s impl=[%s] model=[%s]" %
-              (variant, len(mism), len(ops), ops[mism[0]], impl[mism[0]], model[mism[0]]))
-    devs = {}
-    for i, op in enumerate(ops):
-        f = op.split()
-        got = dict(p.split("=", 1) for p in impl[i].split()) if not impl[i].startswith("impl-error") else {}
-        for n, s in specs[i].items():
-            res.case("%s|%s" % (op, n), not (n.startswith("cast_") or n == "assign"))
-            if got.get(n) != s:
-                devs.setdefault((f[0], f[2], n, got.get(n), s, tuple(f[3:])), []).append(f[1])
-    res.extra["deviations"] = len(devs)
+    res.extra["exhaustive"] = True
+    res.extra["platforms"] = names
+    res.extra["programs"] = len(ops)
+    res.extra["deviations_from_language"] = len(devs)
+    res.extra["deviation_classes"] = sorted(set(d["key"] or "UNCLASSIFIED" for d in devs))
+    res.notes.append("modelled state of the code matched by exhaustive correspondence: " + variant)
+    report(res, devs, "exhaustive table")
+
+    # ---- literals: boundary grid + seeded values x bases x suffixes x platforms ---------------------------------------
+    ldevs = run_literals(ctx, res, drv, exe, names, thorough)
+    res.extra["literal_deviations_from_language"] = len(ldevs)
+    report(res, ldevs, "integer literal")
+
+    # ---- thorough: clang as second oracle for the SPEC -------------------------------------------------------------
+    if thorough:
+        clang_oracle(ctx, res, drv)
+
     if os.environ.get("C09_DUMP"):
         with open(os.environ["C09_DUMP"], "w") as fh:
-            for k, v in sorted(devs.items(), key=str):
-                fh.write("%s %s\n" % (k, ",".join(v)))
+            for d in devs:
+                fh.write(json.dumps(d) + "\n")
+
+
+def check_platform_sizes(ctx, drv, exe, plats):
+    """the fields the real Platform object holds after Platform::set(name, ...) (harness `plat`) == the generated record
+    as the Lean driver sees it"""
+    names = [n for n, _ in plats]
+    rc, hout, herr = core.run_lines([exe, core.REPO], [], ["%s plat" % n for n in names])
+    rc, mout, merr = core.run_lines(drv, [], ["plat %s" % n for n in names])
+    bad = []
+    if len(hout) != len(names) or len(mout) != len(names):
+        return ["plat streams: %d/%d lines for %d platforms" % (len(hout), len(mout), len(names))]
+    for n, h, m in zip(names, hout, mout):
+        hd = dict(kv.split("=") for kv in h.split() if "=" in kv)
+        md = dict(kv.split("=") for kv in m.split() if "=" in kv)
+        for k in ("charBit", "short", "int", "long", "llong", "charUnsigned"):
+            if hd.get(k) != md.get(k):
+                bad.append("%s: %s is %s in the real Platform object, %s in the generated table" % (n, k, hd.get(k), md.get(k)))
+        if hd.get("bits") != ",".join(str(int(md.get("charBit", "0")) * int(md.get(k, "0"))) for k in ("short", "int", "long", "llong")):
+            bad.append("%s: calculateBitMembers gives %s" % (n, hd.get("bits")))
+    return bad
+
+
+CLANG_TARGETS = [("x86_64-linux-gnu", []), ("i386-linux-gnu", []), ("x86_64-pc-windows-msvc", []), ("i686-pc-windows-msvc", []),
+                 ("avr", []), ("msp430", []), ("aarch64-linux-gnu", []), ("armv7-linux-gnueabihf", []), ("riscv32", []), ("riscv64", []),
+                 ("mips-linux-gnu", []), ("powerpc64-ibm-aix", []), ("x86_64-linux-gnu", ["-funsigned-char"]), ("avr", ["-funsigned-char"]),
+                 ("aarch64-linux-gnu", ["-fsigned-char"]), ("x86_64-pc-windows-msvc", ["-funsigned-char"])]
+VT2C = {"bool:x": None, "char:x": "char", "char:s": "signed char", "char:u": "unsigned char", "short:s": "short", "short:u": "unsigned short",
+        "int:s": "int", "int:u": "unsigned int", "long:s": "long", "long:u": "unsigned long", "llong:s": "long long",
+        "llong:u": "unsigned long long", "float:x": "float", "double:x": "double", "ldouble:x": "long double"}
+
+
+def clang_sizes(target, flags):
+    rc, out, err = core.sh(["clang", "--target=" + target] + flags + ["-dM", "-E", "-x", "c", "/dev/null"])
+    if rc != 0:
+        return None
+    d = dict(re.findall(r"#define (\w+) (.*)", out))
+    try:
+        return dict(charBit=int(d["__CHAR_BIT__"]), short=int(d["__SIZEOF_SHORT__"]), int=int(d["__SIZEOF_INT__"]), long=int(d["__SIZEOF_LONG__"]),
+                    llong=int(d["__SIZEOF_LONG_LONG__"]), cu=1 if "__CHAR_UNSIGNED__" in d else 0)
+    except KeyError:
+        return None
+
+
+def probe_file(lang, ops, specs):
+    """one translation unit asserting, for every operator of every op, that the compiler's type is the spec's type"""
+    ids, out = [], []
+    if lang == "cpp":
+        out.append("template<class T> struct rr { typedef T t; }; template<class T> struct rr<T&> { typedef T t; };\n"
+                   "template<class A, class B> struct same { static const bool v = false; }; template<class A> struct same<A, A> { static const bool v = true; };")
+    for k, (op, spec) in enumerate(zip(ops, specs)):
+        f = op.split()
+        if f[0] == "bin":
+            out.append("void f%d(%s a, %s b, int c) {" % (k, spell(f[3], lang), spell(f[4], lang)))
+            exprs = [("var1", "a"), ("var2", "b")] + [(o, "a %s b" % BINOPS[o]) for o in bin_ops_for(f[3], f[4])] + [("tern", "c ? a : b")]
+        else:
+            out.append("void f%d(%s a) {" % (k, spell(f[3], lang)))
+            exprs = [("var", "a")] + [(o, UNOPS[o]) for o in un_ops_for(f[3])] + [("cast_" + t2, "(%s)a" % spell(t2, lang)) for t2 in TYPES]
+        for n, e in exprs:
+            if n not in spec:
+                continue
+            ct = VT2C[spec[n]] or ("_Bool" if lang == "c" else "bool")
+            i = len(ids)
+            ids.append((op, n, spec[n]))
+            if lang == "c":
+                out.append('  _Static_assert(_Generic((%s), %s: 1, default: 0), "ID%d");' % (e, ct, i))
+            else:
+                out.append('  static_assert(same<rr<decltype((%s))>::t, %s>::v, "ID%d");' % (e, ct, i))
+        out.append("}")
+    return "\n".join(out) + "\n", ids
+
+
+def clang_oracle(ctx, res, drv):
+    """second oracle for the SPEC: for every clang target (a data model each) the Lean spec must name, for every
+    operator x operand types, exactly the type clang gives the expression"""
+    total = bad_total = 0
+    seen_shapes = set()
+    for target, flags in CLANG_TARGETS:
+        sz = clang_sizes(target, flags)
+        tag = target + ("" if not flags else " " + " ".join(flags))
+        if sz is None:
+            res.notes.append("clang target %s not available; skipped" % tag)
+            continue
+        pname = "x:%(charBit)d:%(short)d:%(int)d:%(long)d:%(llong)d:%(cu)d" % sz
+        bad = []
+        for lang in ("c", "cpp"):
+            ops = table_ops([pname], [lang])
+            rc, mout, merr = core.run_lines(drv, [], ops + ["plat " + pname])
+            if len(mout) != len(ops) + 1:
+                raise core.CheckBroken("C09 driver (clang oracle): %d lines for %d ops" % (len(mout), len(ops) + 1))
+            seen_shapes.add(mout[-1].split("shape=")[-1])
+            specs = [split_model(o)[1] for o in mout[:-1]]
+            for op, sp in zip(ops, specs):
+                if op.startswith("bin"):
+                    sp["var1"], sp["var2"] = [declspec(t) for t in op.split()[3:5]]
+                else:
+                    sp["var"] = declspec(op.split()[3])
+            text, ids = probe_file(lang, ops, specs)
+            src = os.path.join(ctx.tmp, "c09_probe.%s" % ("c" if lang == "c" else "cpp"))
+            open(src, "w").write(text)
+            cmd = ["clang" if lang == "c" else "clang++", "--target=" + target] + flags + \
+                  ["-std=c17" if lang == "c" else "-std=c++17", "-fsyntax-only", "-ffreestanding", "-w", "-ferror-limit=0", src]
+            rc, out, err = core.sh(cmd, timeout=600)
+            failed = set(int(x) for x in re.findall(r'"ID(\d+)"', err)) | set(int(x) for x in re.findall(r"failed[^\n]*ID(\d+)", err))
+            other = [l for l in err.split("\n") if "error:" in l and "ID" not in l]
+            total += len(ids)
+            for i in sorted(failed):
+                bad.append("%s %s: clang does not give `%s` the type %s" % (lang, ids[i][0], ids[i][1], ids[i][2]))
+            if other:
+                bad.append("%s: clang rejects the probe file: %s" % (lang, other[0][-200:]))
+            res.count("clang-asserts:" + lang, len(ids))
+        bad_total += len(bad)
+        res.oblig("spec-vs-clang:%s" % tag, not bad, "oracle", "" if not bad else "%d disagreements; first: %s" % (len(bad), bad[0]))
+    res.extra["clang_asserts"] = total
+    res.extra["clang_shapes"] = sorted(seen_shapes)
+
+
+def declspec(t):
+    return {"bool": "bool:x", "char": "char:x", "schar": "char:s", "uchar": "char:u", "short": "short:s", "ushort": "short:u", "int": "int:s",
+            "uint": "int:u", "long": "long:s", "ulong": "long:u", "llong": "llong:s", "ullong": "llong:u", "float": "float:x",
+            "double": "double:x", "ldouble": "ldouble:x"}[t]
 
 
 def replay(ctx, res, rp):
-    return 0
+    """re-run one stored case on the real code; 1 if it still deviates from the language rule"""
+    translate(ctx)
+    drv = ctx.driver("drv_c09")
+    exe = ctx.harness("c09")
+    if rp["op"].startswith("lit"):
+        devs = literal_devs(ctx, res, drv, exe, [lit_group(rp["op"])], "replay", False)
+    else:
+        variant, devs, _ = evaluate(ctx, res, drv, exe, [rp["op"]], "replay", count=False)
+    hit = [d for d in devs if d["name"] == rp["name"] or rp["name"] == "*"]
+    for d in hit:
+        print("still fails: %s [%s] impl=%s language=%s class=%s" % (d["op"], d["name"], d["impl"], d["spec"], d["key"]))
+    if not hit:
+        print("does not reproduce: %s [%s] now has the language's type" % (rp["op"], rp["name"]))
+    return 1 if hit else 0
